@@ -1102,22 +1102,26 @@ Proof.
 Qed.
 
 (* the cover-tree method end to end on the model: query (repaired radius) + repaired selection give exactly the k
-   nearest other samples for every row, on any tree that passes the two checkers.  The only facts left to the
-   run-time checks are about the TREE (ct_inv_b, ct_holds_b) and the shape of the returned row (nodup_b, range). *)
+   nearest other samples for every row, on any tree that passes the two checkers ct_inv_b and ct_holds_b.  Nothing
+   about the query itself is left to a run-time check. *)
 Theorem covertree_model_exact_lemma : forall d N top k fuel rows ok q cands,
   metric_on (in_range N) d -> (k < N)%nat ->
   ct_inv_b d top = true -> ct_holds_b N top = true -> is_leaf top = false ->
   ct_query false d (S k) (valid_b d (leaf_points top) (S k)) fuel top = Some (rows, ok) ->
-  In (q, cands) rows -> nodup_b cands = true ->
-  forallb (fun j => (0 <=? j) && (j <? Z.of_nat N)) cands = true ->
+  In (q, cands) rows ->
   exists l, ct_select_fixed d (q :: cands) k = Some l /\ is_knn d N q k l.
 Proof.
-  intros d N top k fuel rows ok q cands Hm Hk Hinv Hholds Hnl E Hin Hnd Hrng.
+  intros d N top k fuel rows ok q cands Hm Hk Hinv Hholds Hnl E Hin.
   pose proof (ct_holds_b_sound N top Hholds) as Hperm.
   assert (Hdom : forall x, In x (leaf_points top) -> in_range N x).
   { intros x Hx. apply (Permutation.Permutation_in _ Hperm) in Hx. now apply samples_In in Hx. }
   assert (Hndl : NoDup (leaf_points top)).
   { unfold ct_holds_b in Hholds. rewrite !andb_true_iff in Hholds. destruct Hholds as [[H _] _]. now apply nodup_b_spec. }
+  destruct (ct_query_rows_shape_lemma false d (in_range N) top (S k) fuel rows ok Hm Hdom Hinv Hndl Hnl E q cands Hin)
+    as [Hnd Hinc].
   pose proof (ct_query_audit_true_lemma false d (in_range N) top (S k) fuel rows ok Hm Hdom Hinv Hndl Hnl E) as ->.
-  apply (covertree_model_exact_partial_lemma d N top k fuel rows q cands Hm Hk Hinv Hholds Hnl E Hin Hnd Hrng).
+  apply (covertree_model_exact_partial_lemma d N top k fuel rows q cands Hm Hk Hinv Hholds Hnl E Hin).
+  - now apply nodup_b_spec.
+  - apply forallb_forall. intros j Hj. specialize (Hdom j (Hinc j Hj)). unfold in_range in Hdom.
+    apply andb_true_iff. split; [apply Z.leb_le | apply Z.ltb_lt]; lia.
 Qed.
